@@ -1633,7 +1633,8 @@ impl CanonicalizeContext {
 			let open = mfenced.attribute_value("open").unwrap_or("(").replace('<', "⟨");
 			let close = mfenced.attribute_value("close").unwrap_or(")").replace('>', "⟩");
 			// debug!("open={}, close={}", open, close);
-			let mut separators= mfenced.attribute_value("separators").unwrap_or(",").chars();
+			// MathML: white space in 'separators' is ignored and an empty value means no separators; when there are too few, ',' is used
+			let separators: Vec<char> = mfenced.attribute_value("separators").unwrap_or(",").chars().filter(|ch| !ch.is_whitespace()).collect();
 			set_mathml_name(mfenced, "mrow");
 			mfenced.remove_attribute("open");
 			mfenced.remove_attribute("close");
@@ -1645,9 +1646,11 @@ impl CanonicalizeContext {
 			}
 			if !children.is_empty() {
 				new_children.push(children[0]);
-				for child in &children[1..] {
-					let sep = separators.next().unwrap_or(',').to_string();
-					new_children.push( ChildOfElement::Element( create_mo(mfenced.document(), &sep, MFENCED_ATTR_VALUE)) );
+				for (i, child) in children[1..].iter().enumerate() {
+					if !separators.is_empty() {
+						let sep = separators.get(i).unwrap_or(&',').to_string();
+						new_children.push( ChildOfElement::Element( create_mo(mfenced.document(), &sep, MFENCED_ATTR_VALUE)) );
+					}
 					new_children.push(*child);
 				}
 			}
